@@ -145,7 +145,7 @@ def run_cli(tool, argv, cwd=None, answers=None, keep_figures=False):
     return res
 
 
-def run_subprocess(tool, argv, cwd, home, stdin_text="", repo=None, timeout=120, closed_stdout=False):
+def run_subprocess(tool, argv, cwd, home, stdin_text="", repo=None, timeout=120, closed_stdout=False, early_reader=False):
     """run the real command line entry point in a fresh interpreter (closed_stdout: the process
     starts without a standard output, as with `cmd >&-`, cron jobs or daemons: sys.stdout is None)"""
     env = dict(os.environ)
@@ -169,6 +169,20 @@ def run_subprocess(tool, argv, cwd, home, stdin_text="", repo=None, timeout=120,
         finally:
             os.close(master)
         return subprocess.CompletedProcess(proc.args, proc.returncode, out, err)
+    if early_reader:
+        # standard output is a pipe whose reader quits at once (`evo_traj ... | head -0`, a pager
+        # left with q): writing to it fails from the first message on
+        proc = subprocess.Popen([sys.executable, "-c", code] + list(argv), cwd=cwd, env=env, stdin=subprocess.DEVNULL,
+                                stdout=subprocess.PIPE, stderr=subprocess.PIPE, text=True)
+        proc.stdout.close()
+        try:
+            err = proc.stderr.read()
+            proc.wait(timeout=timeout)
+        finally:
+            proc.stderr.close()
+            if proc.poll() is None:
+                proc.kill()
+        return subprocess.CompletedProcess(proc.args, proc.returncode, "", err)
     if closed_stdout:
         p = subprocess.run([sys.executable, "-c", code] + list(argv), cwd=cwd, env=env, input=stdin_text, text=True,
                            stderr=subprocess.PIPE, timeout=timeout, preexec_fn=lambda: os.close(1))
